@@ -597,6 +597,12 @@ pub fn run(tier: Tier) -> i32 {
     run.assume("12 bytes = the lexer's maximal lookahead (1 scanner byte + up to 10 peeked bytes for number/date detection + CR LF)");
     run.assume("Interrupted reads are retried by the decoder (std::io::Read::read_exact semantics)");
     crate::engine::quiet_panics();
+    {
+        let pool: Vec<V> = super::c01::probe_pool();
+        if super::common::probe_first(&mut run, "zinc-codec", &pool, &super::c01::zinc_observation, &|v: &V| crate::model::v::to_json(v)) {
+            return run.finish(&replay);
+        }
+    }
 
     // (a) grammar spellings
     let mut vals: Vec<V> = u::scalars(Tier::Quick);
@@ -783,6 +789,10 @@ pub fn run(tier: Tier) -> i32 {
 }
 
 pub fn replay(case: &J) -> Verdict {
+    if case["free_running"] == "zinc-codec" {
+        let pool: Vec<V> = super::c01::probe_pool();
+        return super::common::replay_probe(&pool, &super::c01::zinc_observation, &|v: &V| crate::model::v::to_json(v));
+    }
     if let Some(a) = case["lazy_big"].as_array() {
         let g = |k: usize| a[k].as_u64().unwrap_or(0) as usize;
         let (doc, bounds) = lazy_doc(g(0), g(1), g(2), g(3) == 1, false);
